@@ -508,6 +508,35 @@ def o7(tier):
     return r
 
 
+@guard
+def o8(tier):
+    """every commit of ANOTHER member is merged only after both validators accepted it, whatever function performs the merge"""
+    from props.C01 import merging_functions, mk_args
+    ob = Ob('O8', 'every mdk-core function that merges a staged commit received from the network (merge_staged_commit; function set computed from the MIR call graph): on every path the merge is '
+                  'preceded by validate_commit_authorization == Ok and validate_commit_identities == Ok for that commit (no branch merges a foreign commit unvalidated, e.g. the one that removes the receiver)',
+            pure=C.PURE_MLS, models=C.staged_commit_models(1), loop_bound=5, inline={'process_commit'})
+    ob.eng.model_maps = False
+    fs = [f for f in merging_functions(ob.prog) if any('merge_staged_commit' in bl[-1] for bl in f.blocks.values())]
+    total = n = 0
+    for f in fs:
+        for p in ob.explore(f, mk_args(f)):
+            total += 1
+            if p.kind == 'panic':
+                continue
+            ms = [(i, e) for i, e in enumerate(p.trace) if e.short.split('::')[-1] == 'merge_staged_commit' and ('openmls' in e.fn or 'MlsGroup' in e.fn)]
+            if not ms:
+                continue
+            n += 1
+            i0 = ms[0][0]
+            for v in ('validate_commit_authorization', 'validate_commit_identities'):
+                ev = [e for e in p.trace[:i0] if ev_is(e, v)]
+                ob.require(bool(ev) and res_ok(ob, p, ev[-1]), f'O8/fn={f.short}/merge-without-{v}',
+                           f'{f.short}: a staged commit is merged on a path where {v} did not run (or did not succeed) first: a commit that is not authorised can take effect', p)
+    ob.require(n >= 1, 'O8/vacuity', 'no path merging a staged commit found')
+    ob.r.bounds = {'functions': sorted(f.short for f in fs), 'paths': 'all'}
+    return ob.done(cases=total)
+
+
 def run(tier, seed, only=None):
-    obs = [('O1', o1), ('O2', o2), ('O3', o3), ('O4', o4), ('O5', o5), ('O6', o6), ('O7', o7)]
+    obs = [('O1', o1), ('O2', o2), ('O3', o3), ('O4', o4), ('O5', o5), ('O6', o6), ('O7', o7), ('O8', o8)]
     return [f(tier) for k, f in obs if not only or k in only]
